@@ -109,7 +109,9 @@ func AT(oid string, tag int, val []byte) ATV { return ATV{OID: oid, Tag: tag, Va
 
 // ATC builds an attribute whose value carries a tag of another class (same tag NUMBER as a string type, but not
 // that string type).
-func ATC(oid string, class, tag int, val []byte) ATV { return ATV{OID: oid, Tag: tag, Val: val, Class: class} }
+func ATC(oid string, class, tag int, val []byte) ATV {
+	return ATV{OID: oid, Tag: tag, Val: val, Class: class}
+}
 
 func (a ATV) node() *der.Node {
 	v := der.Prim(a.Tag, a.Val)
